@@ -128,8 +128,6 @@ int fff_lapack_dgesdd( fff_matrix* A, fff_vector* s, fff_matrix* U, fff_matrix* 
   int ldvt = (int)Vt->tda;
   int lwork = work->size;
 
-  fff_matrix Aux_mm, Aux_nn;
-
   CHECK_SQUARE(U);
   CHECK_SQUARE(Vt);
   CHECK_SQUARE(Aux);
@@ -167,14 +165,11 @@ int fff_lapack_dgesdd( fff_matrix* A, fff_vector* s, fff_matrix* U, fff_matrix* 
 		s->data, Vt->data, &ldvt, U->data, &ldu,
 		work->data, &lwork, (int*)iwork->data, &info);
 
-  /* At this point, both U and V are in Fortran order, so we need to
-     transpose */
-  Aux_mm = fff_matrix_block( Aux, 0, m, 0, m );
-  fff_matrix_transpose(&Aux_mm, U);
-  fff_matrix_memcpy(U, &Aux_mm);
-  Aux_nn = fff_matrix_block( Aux, 0, n, 0, n );
-  fff_matrix_transpose(&Aux_nn, Vt);
-  fff_matrix_memcpy(Vt, &Aux_nn);
+  /* dgesdd was run on A**t (the row-major buffer of A read in Fortran
+     order) and wrote U* in the buffer of Vt and Vt* in the buffer of
+     U, both in Fortran order. Read in C order, these buffers are
+     (U*)**t = Vt and (Vt*)**t = U: there is nothing left to
+     transpose. */
 
   return info;
 }
@@ -240,9 +235,9 @@ extern int fff_lapack_inv_sym(fff_matrix* iA, fff_matrix *A)
   for (i=0 ; i<n ; i++)
 	fff_matrix_set(iS,i,i,1.0/fff_vector_get(s,i));
 
-  /* these two lines were mean to make it work with AR's bug */
-  fff_blas_dgemm (CblasNoTrans, CblasNoTrans,1,U,iS, 0, aux);
-  fff_blas_dgemm (CblasNoTrans, CblasTrans,1,aux,Vt,0, iA);
+  /* A = U S Vt, hence inv(A) = Vt**t inv(S) U**t */
+  fff_blas_dgemm (CblasTrans, CblasNoTrans,1,Vt,iS, 0, aux);
+  fff_blas_dgemm (CblasNoTrans, CblasTrans,1,aux,U,0, iA);
 
   fff_matrix_delete(U);
   fff_matrix_delete(Vt);
